@@ -81,6 +81,14 @@ def cases(tier, rng):
         c["key"] = c["line"]
         c["model"] = False
         cs.append(c)
+    # the switch to the upstream codec that was tested and chosen never gets an answer (five option requests lost in a row): the client
+    # falls back to the default codec - with a fragment size that fits the codec it is left with; 5000+: every transfer length up to a fragment
+    for cp, bp, lim, k in ([("keep", "keep", 0, 5), ("keep", "strip", 0, 5), ("keep", "keep", 1500, 5)] + ([("keep", "keep", 0, 3), ("lower", "keep", 0, 5), ("keep", "keep", -2048, 5), ("keep", "keep", 0, 10)] if thorough else [])):
+        c = mk(cp, bp, "all", lim, (1000 if thorough else 0) + rng.below(100), "option-requests-lost")
+        c["line"] += " 0 %d" % k
+        c["key"] = c["line"]
+        c["model"] = False
+        cs.append(c)
     for _ in range(60 if thorough else 8):
         k = rng.range(1, 4)
         ts = ",".join(sorted(set(rng.choice(TYPES) for _ in range(k))))
